@@ -119,6 +119,11 @@ func c18Once(c *mon.Ctx) {
 			}
 		}
 	}
+	for _, k := range []string{"com", "abarth", "zuerich"} {
+		if p, ok := util.VerifTLDMap()[k]; ok {
+			c.R.Sample(8, map[string]any{"table_entry": k, "delegation": p.DelegationDate, "removal": p.RemovalDate, "valid_at_delegation": util.HasValidTLD("example."+k, c18Ref[k].deleg), "valid_1s_before": util.HasValidTLD("example."+k, c18Ref[k].deleg.Add(-time.Second))})
+		}
+	}
 	// (b) API vs reference, exhaustive over the table
 	prefixes := []string{"", "example.", "a.b.c.", "WWW.Example.", "*.", "xn--bcher-kva.", "."}
 	for ni, name := range c18Names {
